@@ -244,6 +244,12 @@ def run(tier):
     types = rg.chains(maxd)
     for _ in range(200 if tier == "quick" else 12000):
         types.append(rg.random_type(rnd, rnd.randint(2, 5)))
+    # project types whose names end the way generated names end (TableSchema next to Table, QueryParams): a reference must reach the
+    # schema of the type that was named
+    for nm in ("Table", "TableSchema", "Schema", "JsonSchema", "QueryParams", "QueryParamsSchema"):
+        types.append(rg.N(nm))
+        for (_, f) in rg.slots()[:9]:
+            types.append(f(rg.N(nm)))
     seen = set()
     uniq = []
     for t in types:
